@@ -773,6 +773,7 @@ def nextCfg (cfg : Option BCfg) (W : Nat) (x : Factors) : Option BCfg :=
 /-- `setBoostedYieldsFactors` -/
 def setFactors (s : St) (x : Factors) : Option (St × Out) := do
   req (0 < x.minE ∧ 0 < x.minF)
+  req (0 < x.cE ∨ 0 < x.cF)   -- repair of finding F7 (shared farm-boosted-yields module)
   let c ← nextCfg s.b.cfg s.week x
   pure ({ s with b := { s.b with cfg := some c } }, {})
 
